@@ -26,7 +26,7 @@ PROP = {
             "with the model (prun); oracles: every line of file k equals the line a fresh bar that saw only file k's callbacks shows (percentage, "
             "total, speed, ETA; draw/no-draw where nothing is throttled), a fresh file starts at 0 % / 0.00 B, a data step shows prefix + sent of the "
             "file's own size, every file ends at 100 % of its own size; end to end: the real client uploads / downloads two files with -y, one "
-            "partly at the destination: the last line of each file shows 100 % of its own size and no line more bytes than the file has. ; group e2e-tmux-pane: real transfers in a real tmux pane of 30/34 columns (tmux_pane_width from trz/tsz or from the relay) and in control mode: every pane-relative redraw of the progress line moves pane width - 1 columns left and its text is no wider",
+            "partly at the destination: the last line of each file shows 100 % of its own size and no line more bytes than the file has. ORDER of the callbacks: every real transfer's callback sequence (delivery order) must be a word of the model's language cb_lang_ok (pcborder; a constructed late-step order must be rejected); six more real transfers (protocols 2, 3, 4 x sender / receiver, three files, the second resumed) run with a LAGGING display goroutine (export hook `before`: the first step beyond 0 of every hash and data phase is held until the next file is announced or 300 ms): no callback may be attempted while another is under way (files:callbacks-overlap, files:callback-after-next-file), the percentage of the real bar may not fall between two onName calls (pct-decreased); end to end the terminal takes 120 ms per progress line: two progress writes never overlap (files:e2e:progress-writes-overlap) and the percentage of the lines that reach the terminal never falls within a file. ; group e2e-tmux-pane: real transfers in a real tmux pane of 30/34 columns (tmux_pane_width from trz/tsz or from the relay) and in control mode: every pane-relative redraw of the progress line moves pane width - 1 columns left and its text is no wider",
     "trusted": [
         "modelled, not verified: github.com/mattn/go-runewidth (RuneWidth, StringWidth) and the terminal's rendering - premises width_model; "
         "binary64 arithmetic of math.Round(k*a/b) - premises round_model (the exact-rational instance is proved to satisfy them and is what the "
